@@ -77,8 +77,38 @@ def _enc(s: str) -> bytes:
     return s.encode("utf-8", "surrogateescape")
 
 
-def _lines_content(d, seps, tmpl):
-    out, seg, i = [], "", 1
+def _fillers(rel, pad):
+    """`pad` ordinary links in front of the data, so that the data is link number pad+1 of the menu."""
+    if rel.endswith("gophermap"):
+        return "".join("0f%d\t/dc/f.q1\n" % j for j in range(1, pad + 1))
+    return "".join("Name=f%02d\nNumb=%d\nPath=/dc/f.q1\nType=0\n\n" % (j, j, ) for j in range(1, pad + 1))
+
+
+def _title_refs(W):
+    """HTML text for W with CR / LF written as numeric character references (decimal and hexadecimal)."""
+    out, n = [], 0
+    for ch in W:
+        if ch == "\r":
+            out.append("&#13;")
+        elif ch == "\n":
+            n += 1
+            out.append("&#10;" if n % 2 else "&#x0a;")
+        else:
+            out.append(html.escape(ch))
+    return "".join(out)
+
+
+TITLE_SHAPES = {
+    "htmltitle": lambda W: "<html><head><title>%s</title></head><body>x</body></html>\n" % html.escape(W),
+    "htmltitleref": lambda W: "<html><head><title>%s</title></head><body>x</body></html>\n" % _title_refs(W),
+    "htmltitle2": lambda W: "<html><head><title>t1</title><title>%s\n</head><body>x</body></html>\n" % _title_refs(W),
+    "htmltitleafter": lambda W: "<html><head><title>t1</title>%s\n</head><body>x</body></html>\n" % _title_refs(W),
+    "htmltitleopen": lambda W: "<html><head><title>%s\n</head><body>x</body></html>\n" % _title_refs(W),
+}
+
+
+def _lines_content(d, seps, tmpl, first=1):
+    out, seg, i = [], "", first
     for ch in d:
         if ch in seps:
             out.append(tmpl(i, S0 + seg + S1))
@@ -115,8 +145,8 @@ def plant(w, combo, d):
         path, gp = "/", "/\t$"
     elif src == "filename":
         w.write("dc/" + W + ".q1", b"hello\n")
-    elif src == "htmltitle":
-        w.write("dc/t.html", _enc("<html><head><title>%s</title></head><body>x</body></html>\n" % html.escape(W)))
+    elif src in TITLE_SHAPES:
+        w.write("dc/t.html", _enc(TITLE_SHAPES[src](W)))
     elif src == "subject":
         w.write("dc/m.mbox", _enc(MBOX_HEAD % W.replace("\r", "\r ").replace("\n", "\n ")))
         path, gp = "/dc/m.mbox", "/dc/m.mbox\t$"
@@ -125,7 +155,8 @@ def plant(w, combo, d):
         path, gp = "/dc/m.mbox", "/dc/m.mbox\t$"
     elif src in LINE_SRC:
         rel, tmpl = LINE_SRC[src]
-        w.write(rel, _enc(_lines_content(d, seps, tmpl)))
+        pad = combo.get("pad", 0)
+        w.write(rel, _enc(_fillers(rel, pad) + _lines_content(d, seps, tmpl, first=pad + 1)))
         if src == "textline":
             path = "/dc/t.q1"
         if src in ("abstract", "keywords", "ask", "3d"):
@@ -265,7 +296,7 @@ def _world(hl):
 
 
 def list_for(src, hl):
-    return hl + "+noextstrip" if src == "htmltitle" else hl
+    return hl + "+noextstrip" if src.startswith("htmltitle") else hl
 
 
 def fetch(hl, cb, d, tls):
@@ -312,7 +343,7 @@ def case_id(job):
 
 def abstract_case(job):
     c = COMBOS[job["cb"]]
-    return {"cb": job["cb"], "d": job["d"], "dname": _names(job["d"]), "proto": c["proto"], "src": c["src"], "pfx": c.get("pfx", ""), "tls": job["tls"],
+    return {"cb": job["cb"], "d": job["d"], "dname": _names(job["d"]), "proto": c["proto"], "src": c["src"], "pfx": c.get("pfx", ""), "pad": c.get("pad", 0), "tls": job["tls"],
             "list": job["list"], "twin": job["twin"], "twins": job["twins"], "rawsite": job["rawsite"],
             "has_lf": "\n" in job["d"], "has_dq": '"' in job["d"]}
 
